@@ -18,14 +18,15 @@ import (
 )
 
 const verifDir = "/verif"
+
 var repoDir = "/repo"
 
 type propCfg struct {
-	Modules    []string
-	Decided    []string // clauses of the statement decided by the obligations
-	NotDecided []string
-	Scans      []func(*run) // closed-world scans and other syntactic obligations
-	Bounded    []func(*run) // bounded stand-ins (thorough tier), never counted as proved
+	Modules      []string
+	Decided      []string // clauses of the statement decided by the obligations
+	NotDecided   []string
+	Scans        []func(*run) // closed-world scans and other syntactic obligations
+	Bounded      []func(*run) // bounded stand-ins (thorough tier), never counted as proved
 	BoundedQuick []func(*run) // bounded stand-ins cheap enough for the quick tier as well
 }
 
@@ -432,24 +433,24 @@ func writeEvidence(r *run, cfg propCfg, nOb, nDis int, tally map[string]int, sol
 		}
 	}
 	cov := map[string]any{
-		"obligations":               nOb,
-		"discharged":                nDis,
-		"checker_cmd":               fmt.Sprintf("cd /verif && ./bin/check %s --tier %s", r.prop, r.tier),
-		"trusted_base":              trusted,
-		"functions_under_contract":  r.funcs,
+		"obligations":                    nOb,
+		"discharged":                     nDis,
+		"checker_cmd":                    fmt.Sprintf("cd /verif && ./bin/check %s --tier %s", r.prop, r.tier),
+		"trusted_base":                   trusted,
+		"functions_under_contract":       r.funcs,
 		"callee_functions_also_verified": r.depFuncs,
-		"contracts_relied_on":       deps,
-		"discharged_by_backend":     tally,
-		"solver_time_s":             round3(solverTime),
-		"vacuity_guards":            nCovers,
-		"samples":                   samples,
-		"obligation_results":        obl,
-		"clauses_decided":           cfg.Decided,
-		"clauses_not_decided":       cfg.NotDecided,
-		"bounded_stand_ins":         r.bounded,
-		"known_findings_reproduced": known,
-		"notes":                     r.notes,
-		"explanation":               "every obligation is an SMT query generated from the function bodies in /repo's working tree and the contracts in contracts_verif.go; discharged == obligations means the solvers proved all of them unsat",
+		"contracts_relied_on":            deps,
+		"discharged_by_backend":          tally,
+		"solver_time_s":                  round3(solverTime),
+		"vacuity_guards":                 nCovers,
+		"samples":                        samples,
+		"obligation_results":             obl,
+		"clauses_decided":                cfg.Decided,
+		"clauses_not_decided":            cfg.NotDecided,
+		"bounded_stand_ins":              r.bounded,
+		"known_findings_reproduced":      known,
+		"notes":                          r.notes,
+		"explanation":                    "every obligation is an SMT query generated from the function bodies in /repo's working tree and the contracts in contracts_verif.go; discharged == obligations means the solvers proved all of them unsat",
 	}
 	ev := map[string]any{
 		"property_id": r.prop,
